@@ -61,6 +61,21 @@ Section Conn.
     - destruct (cst_eqb (cst s) Running); eexists; (split; [reflexivity|exact P]).
   Qed.
 
+  (* an ErrConnOutboundOverflow answer changes nothing but the caller's own record: the queue,
+     the state, every other thread are exactly as before (so whatever could shut the connection
+     down before the overflow still can afterwards; the progress theorems hold for every history) *)
+  Lemma overflow_is_harmless cs i sd p r : let s := run repaired s0 cs in
+    nth_error (senders s) i = Some sd -> chk sd = true -> todo sd = p :: r -> ocap s <= length (outq s) ->
+    step repaired s (Sender i) =
+      Some (s <| senders := upd (senders s) i
+                   (sd <| todo := r |> <| chk := false |> <| results := results sd ++ [(pid p, 2%Z)] |>) |>).
+  Proof.
+    intros s Hn Hc Ht Hfull. destruct (reach_inv cs) as [A _]. fold s in A.
+    unfold step, send_step. rewrite (a_panic _ A), Hn, Ht, Hc. cbn [negb].
+    rewrite (a_onil _ A), (a_ocl _ A).
+    destruct (Nat.ltb_spec (length (outq s)) (ocap s)); [lia|reflexivity].
+  Qed.
+
   (* the notification: at most one attempt per connection, it is a single always-enabled step
      (never blocks), it is delivered iff the error channel exists and has room *)
   Lemma notify_once cs : let s := run repaired s0 cs in
